@@ -76,3 +76,240 @@ class CheckZero(Contract):
 
     def counts(self, c, x):
         return (0, 2, 2)
+
+
+# ---------------------------------------------------------------------------
+# bits
+# ---------------------------------------------------------------------------
+from pyvc.sym import bit
+from .boolean_c import is01
+
+
+def _width(c, bits):
+    return c.rt.bitlength if bits is None else bits
+
+
+class _BitsCfg(Contract):
+    modules = ("pysnark.runtime", "pysnark.boolean")
+
+    def configs(self, tier):
+        out = []
+        for n in widths(tier):
+            for m in MODES:
+                out.append(dict(mode=m, bits=n, explicit=True))
+        # width taken from the global bitlength, and an explicit width different from it
+        out.append(dict(mode="plain", bits=4, explicit=False))
+        out.append(dict(mode="ie", bits=4, explicit=False))
+        return out
+
+    def _setup(self, c, cfg):
+        if cfg["explicit"]:
+            apply_mode(c, cfg["mode"], bitlength=cfg["bits"] + 5)     # global width differs from the requested one
+            return c.operand("x"), cfg["bits"]
+        apply_mode(c, cfg["mode"], bitlength=cfg["bits"])
+        return c.operand("x"), None
+
+
+@register
+class ToBits(_BitsCfg):
+    """x.to_bits(n): n boolean wires that recompose to x; rejects x outside [0,2^n)."""
+    name = "pysnark.runtime:LinComb.to_bits"
+
+    def setup(self, c, cfg):
+        x, bits = self._setup(c, cfg)
+        return c.LinComb.to_bits, (x,) if bits is None else (x, bits), {}
+
+    def pre(self, c, x, bits=None):
+        return [(1 << _width(c, bits)) < c.p]
+
+    def raises(self, c, x, bits=None):
+        n = _width(c, bits)
+        v = c.v(x)
+        return [(AssertionError, And(Not(ie(c)), Or(v < 0, v >= (1 << n))))]
+
+    def result(self, c, x, bits=None):
+        n = _width(c, bits)
+        return [c.fresh_bool_lc(lift(bit(c.v(x), i)), "b%d" % i) for i in range(n)]
+
+    def post(self, c, r, x, bits=None):
+        n = _width(c, bits)
+        v = c.v(x)
+        d = {
+            "V.len": isinstance(r, list) and len(r) == n,
+            "V.type": all(isinstance(b, c.LinCombBool) for b in r),
+        }
+        if not d["V.len"]:
+            return d
+        d["V.bits"] = And(*[Eq(c.v(b), bit(v, i)) for i, b in enumerate(r)])
+        d["V.recompose"] = Implies(And(v >= 0, v < (1 << n)), bitsum([c.v(b) for b in r]) == v)
+        d["V.inv"] = And(*[c.inv(b) for b in r])
+        d["S.bool"] = Implies(on(c), And(*[is01(c.eva(b)) for b in r]))
+        d["S.recompose"] = Implies(on(c), bitsum([c.eva(b) for b in r]) == c.eva(x))
+        d["S.range"] = Implies(on(c), c.eva(x) < (1 << n))
+        if n >= 1:
+            d["canary.S.range"] = Implies(on(c), c.eva(x) < (1 << (n - 1)))
+        return d
+
+    def key(self, c, x, bits=None):
+        return (_width(c, bits),)
+
+    def counts(self, c, x, bits=None):
+        n = _width(c, bits)
+        return addc(n_pvb(c, n), n_ac(c))
+
+
+@register
+class FromBits(Contract):
+    """LinComb.from_bits(bits): sum_i 2^i * bits[i]; linear, no events."""
+    name = "pysnark.runtime:LinComb.from_bits"
+
+    def configs(self, tier):
+        return [dict(mode="plain", n=n) for n in (0, 1, 3, 8)]
+
+    def setup(self, c, cfg):
+        apply_mode(c, cfg["mode"])
+        bits = [c.operand_bool("b%d" % i) for i in range(cfg["n"])]
+        return c.LinComb.from_bits, (bits,), {}
+
+    def use_stub(self, c, *a):
+        return False
+
+    def post(self, c, r, *a):
+        bits = a[-1]
+        if not bits:
+            return {"V.empty": isinstance(r, int) and r == 0}
+        return {
+            "V.value": Eq(c.v(r), bitsum([c.v(b) for b in bits])),
+            "V.inv": c.inv(r),
+            "S.linear": c.eva(r) == bitsum([c.eva(b) for b in bits]) % c.p,
+        }
+
+    def counts(self, c, *a):
+        return (0, 0, 0)
+
+
+@register
+class CheckPositive(_BitsCfg):
+    """x.check_positive(n) -> LinCombBool [x >= 0] for -2^n < x < 2^n."""
+    name = "pysnark.runtime:LinComb.check_positive"
+
+    def setup(self, c, cfg):
+        x, bits = self._setup(c, cfg)
+        return c.LinComb.check_positive, (x,) if bits is None else (x, bits), {}
+
+    def pre(self, c, x, bits=None):
+        return [(1 << (_width(c, bits) + 1)) < c.p]
+
+    def _ok(self, c, x, bits):
+        return And(isg(c), in_range(c.v(x), _width(c, bits)))
+
+    def raises(self, c, x, bits=None):
+        return [(ValueError, And(Not(self._ok(c, x, bits)), Not(ie(c))))]
+
+    def result(self, c, x, bits=None):
+        return c.fresh_bool_lc(lift(If(self._ok(c, x, bits), If(c.v(x) >= 0, 1, 0), 0)), "pos")
+
+    def post(self, c, r, x, bits=None):
+        n = _width(c, bits)
+        v, xa, ra = c.v(x), c.eva(x), c.eva(r)
+        return {
+            "V.type": isinstance(r, c.LinCombBool),
+            "V.value": Implies(self._ok(c, x, bits), Eq(c.v(r), If(v >= 0, 1, 0))),
+            "V.invalid": Implies(Not(self._ok(c, x, bits)), Eq(c.v(r), 0)),
+            "V.inv": c.inv(r),
+            "S.bool": Implies(on(c), is01(ra)),
+            "S.sign": Implies(on(c), Or(And(ra == 1, xa < (1 << n)), And(ra == 0, xa >= c.p - (1 << n)))),
+            "canary.S.sign": Implies(on(c), Or(And(ra == 1, xa < (1 << n) - 1), And(ra == 0, xa >= c.p - (1 << n)))),
+        }
+
+    def key(self, c, x, bits=None):
+        return (_width(c, bits),)
+
+    def counts(self, c, x, bits=None):
+        n = _width(c, bits)
+        return addc(n_pvb(c, n + 1), n_ac(c))
+
+
+@register
+class AssertZero(Contract):
+    name = "pysnark.runtime:LinComb.assert_zero"
+
+    def configs(self, tier):
+        return [dict(mode=m) for m in MODES]
+
+    def setup(self, c, cfg):
+        apply_mode(c, cfg["mode"])
+        return c.LinComb.assert_zero, (c.operand("x"),), {}
+
+    def raises(self, c, x, err=None):
+        return [(AssertionError, And(Not(ie(c)), c.v(x) != 0))]
+
+    def post(self, c, r, x, err=None):
+        return {
+            "S.zero": Implies(on(c), c.eva(x) == 0),
+            "E.enforced": Implies(And(on(c), c.tied(x), canon(c, c.v(x))), c.v(x) == 0),
+            "canary.S.zero": Implies(on(c), c.eva(x) == 1),
+        }
+
+    def counts(self, c, x, err=None):
+        return n_ac(c)
+
+
+@register
+class AssertNonzero(Contract):
+    name = "pysnark.runtime:LinComb.assert_nonzero"
+
+    def configs(self, tier):
+        return [dict(mode=m) for m in MODES]
+
+    def setup(self, c, cfg):
+        apply_mode(c, cfg["mode"])
+        return c.LinComb.assert_nonzero, (c.operand("x"),), {}
+
+    def raises(self, c, x, err=None):
+        v = c.v(x)
+        return [(AssertionError, And(Not(ie(c)), Not(And(isg(c), v != 0)))),
+                (ZeroDivisionError, And(isg(c), v != 0, v % c.p == 0))]
+
+    def post(self, c, r, x, err=None):
+        return {
+            "S.nonzero": Implies(on(c), c.eva(x) != 0),
+            "E.enforced": Implies(And(on(c), c.tied(x), canon(c, c.v(x))), c.v(x) != 0),
+            "canary.S.nonzero": Implies(on(c), c.eva(x) == 1),
+        }
+
+    def counts(self, c, x, err=None):
+        return addc((0, 1, 0), n_ac(c))
+
+
+@register
+class AssertPositive(_BitsCfg):
+    """x.assert_positive(n): 0 <= x < 2^n, enforced at the width requested."""
+    name = "pysnark.runtime:LinComb.assert_positive"
+
+    def setup(self, c, cfg):
+        x, bits = self._setup(c, cfg)
+        return c.LinComb.assert_positive, (x,) if bits is None else (x, bits), {}
+
+    def pre(self, c, x, bits=None, err=None):
+        return [(1 << _width(c, bits)) < c.p]
+
+    def raises(self, c, x, bits=None, err=None):
+        n = _width(c, bits)
+        v = c.v(x)
+        return [(AssertionError, And(Not(ie(c)), Or(v < 0, v >= (1 << n))))]
+
+    def post(self, c, r, x, bits=None, err=None):
+        n = _width(c, bits)
+        v = c.v(x)
+        return {
+            "S.range": Implies(on(c), c.eva(x) < (1 << n)),
+            "E.enforced": Implies(And(on(c), c.tied(x), canon(c, v)), And(v >= 0, v < (1 << n))),
+        }
+
+    def key(self, c, x, bits=None, err=None):
+        return (_width(c, bits),)
+
+    def counts(self, c, x, bits=None, err=None):
+        n = _width(c, bits)
+        return addc(n_pvb(c, n), n_ac(c))
